@@ -7,6 +7,11 @@ types.  The invariant proof behind `transformer_correct` lives in `Lemmas/C19a.l
 import OdcGeo.Model.C19
 import OdcGeo.Lemmas.C19a
 import OdcGeo.Lemmas.C19b
+import OdcGeo.Lemmas.C19c
+import OdcGeo.Model.C04
+import OdcGeo.Model.C14
+import Mathlib.Tactic.Linarith
+import Mathlib.Algebra.Order.Field.Rat
 
 namespace OdcGeo.C19
 
@@ -38,6 +43,65 @@ theorem same_id_same_object (W : World) (h : List Op) (hreal : ∀ op ∈ h, op.
     (hab : ca.obj = cb.obj) : ca.info = cb.info :=
   vars_same_obj W h hreal a b ca cb ha hb hab
 
+/-- **Transformer cache invariant.**  After any history of real operations every entry of
+the transformer cache is keyed on two pyproj objects that are still alive and holds a
+transformer between exactly the systems of those two objects — this is what stays true
+while the entries of `_crs_cache` are immortal (the C19-8 / C12-7 / C13-7 class of changes
+breaks it; witness with eviction: `transformer_stale_if_evicting_cex`). -/
+theorem tcache_sound (W : World) (h : List Op) (hreal : ∀ op ∈ h, op.real = true) :
+    ∀ k r, (k, r) ∈ (run W h).1.tcache →
+      ∃ p q, (k.1, p) ∈ (run W h).1.heap ∧ (k.2.1, q) ∈ (run W h).1.heap ∧
+        p.sys = r.1 ∧ q.sys = r.2 :=
+  tcache_sound_aux W h hreal
+
+/-- **The system is never wrong**, whatever the history did to the cache — id reuse, and the
+key collisions of finding F16/K5 included: if `CRS(spec)` succeeds, its pyproj object does
+not denote a system other than the one pyproj assigns to the spec.  Only hypothesis: pyproj
+gives one system to all spellings of one key (`EPSG:n` in any letter case, the integer). -/
+theorem construct_sys_sound (W : World) (hW : KeySysCoherent W) (h : List Op)
+    (hreal : ∀ op ∈ h, op.real = true) (spec : Spec) (pick : Nat) (c : CrsObj) :
+    (construct W (run W h).1 spec pick).2 = .ok c →
+      ∀ y, specSys W (run W h).1 spec = some y → y = c.info.sys :=
+  construct_sys_sound_aux W hW h hreal spec pick c
+
+/-- With acceptance coherence too (pyproj accepts all spellings of a key or none: without it
+a spelling pyproj rejects can *succeed* by hitting an entry stored under another spelling,
+since `_make_crs` does not ask pyproj on a hit) the result denotes exactly the system of
+the spec. -/
+theorem construct_sys_correct (W : World) (hW : KeySysCoherent W) (hA : KeyAcceptCoherent W)
+    (h : List Op) (hreal : ∀ op ∈ h, op.real = true) (spec : Spec) (pick : Nat) (c : CrsObj) :
+    (construct W (run W h).1 spec pick).2 = .ok c →
+      specSys W (run W h).1 spec = some c.info.sys :=
+  construct_sys_correct_aux W hW hA h hreal spec pick c
+
+/-- why `construct_sys_correct` needs the acceptance hypothesis: in a world where pyproj
+accepted `EPSG:1` but not `epsg:1`, `CRS("epsg:1")` succeeds after `CRS("EPSG:1")` (cache
+hit, pyproj is not asked) although the spec denotes nothing.  (Real pyproj is coherent here;
+the harness checks accept/reject of every spelling against the model on every run.) -/
+theorem construct_accept_needed_cex :
+    ∃ (W : World) (h : List Op) (spec : Spec) (c : CrsObj), KeySysCoherent W ∧
+      (∀ op ∈ h, op.real = true) ∧ (construct W (run W h).1 spec 0).2 = .ok c ∧
+      specSys W (run W h).1 spec = none :=
+  accept_needed
+
+/-- pyproj objects, dicts and `CRS` instances need no acceptance hypothesis -/
+theorem construct_sys_correct_nontext (W : World) (hW : KeySysCoherent W) (h : List Op)
+    (hreal : ∀ op ∈ h, op.real = true) (spec : Spec) (hs : spec.textual = false) (pick : Nat)
+    (c : CrsObj) :
+    (construct W (run W h).1 spec pick).2 = .ok c →
+      specSys W (run W h).1 spec = some c.info.sys :=
+  construct_sys_correct_nontext_aux W hW h hreal spec hs pick c
+
+/-- `v = CRS(spec)`: when it prints `s`, `v` holds an instance with `str = s` whose pyproj
+object denotes the system of the spec. -/
+theorem mk_sys_correct (W : World) (hW : KeySysCoherent W) (hA : KeyAcceptCoherent W)
+    (h : List Op) (hreal : ∀ op ∈ h, op.real = true) (v : Nat) (spec : Spec) (pick : Nat)
+    (s : String) :
+    (step W (run W h).1 (.mk v spec pick)).2 = .str s →
+      ∃ c, assoc v (step W (run W h).1 (.mk v spec pick)).1.vars = some c ∧ c.str = s ∧
+        specSys W (run W h).1 spec = some c.info.sys :=
+  mk_sys_correct_aux W hW hA h hreal v spec pick s
+
 /-- A three-system world used by the concrete witnesses below. -/
 def demoWorld : World where
   fromText := fun t =>
@@ -63,7 +127,11 @@ code as it is (finding F16, witness below) because a pyproj object used as a cac
 collides with its own WKT text.  Proved part: for `int` / `str` specs, after every history
 that puts no pyproj object into the cache (no `CRS(pyproj_obj)`, no `CRS(dict)`), the
 result `(str, _epsg)` — or the error — is the one of a fresh interpreter, provided pyproj
-is coherent on spellings that share a key (`EPSG:n` in any letter case, `n`). -/
+is coherent on spellings that share a key (`EPSG:n` in any letter case, `n`).  The
+hypothesis `ht` (`Op.textOnly`: no pyproj-object key ever enters `_crs_cache`) excludes
+exactly the known finding (F16 / K5, witness `crs_str_history_dependent_cex`, harness key
+`crs-str-history-dependent-pyproj-wkt-collision`).  What survives the collision is proved
+at full strength in `construct_sys_correct`: the *system* of the result is never wrong. -/
 theorem crs_str_history_free_partial (W : World) (hW : TextCoherent W) (h : List Op)
     (ht : ∀ op ∈ h, op.textOnly = true) (spec : Spec) (hs : spec.textual = true) (pick : Nat) :
     ((construct W (run W h).1 spec pick).2.map (fun c => (c.str, c.epsg))) = freshOut W spec :=
@@ -159,8 +227,10 @@ theorem crs_specs_equal (a b : CrsObj) (hsys : a.info.sys = b.info.sys)
     · exact Or.inr (Or.inl ⟨h1, h2, hepsg h2.1 h2.2⟩)
     · exact Or.inr (Or.inr ⟨h1, h2, Or.inr hsys⟩)
 
-/-- Equal spellings hash equally (for every string hash `H`).  Full statement
-`crsEq a b → hash a = hash b` is false: K1. -/
+/-- Equal spellings hash equally (for every string hash `H`).  Partial: the full statement
+`crsEq a b = true → crsHash H a = crsHash H b` is false (K1, witness `crs_eq_hash_cex`,
+replayed by the harness under key `crs-eq-hash-differs`); the hypothesis `a.str = b.str`
+excludes exactly K1's input class — the same system spelled differently. -/
 theorem crs_eq_hash_partial (H : String → Int) (a b : CrsObj) (hs : a.str = b.str) :
     crsHash H a = crsHash H b := by simp [crsHash, hs]
 
@@ -263,8 +333,10 @@ theorem BBox.eq_equiv {D : CrsObj → Prop} (hD : Coherent D) :
     exact ⟨h.1.trans g.1, h.2.1.trans g.2.1, h.2.2.1.trans g.2.2.1, h.2.2.2.1.trans g.2.2.2.1,
       h.2.2.2.2.trans g.2.2.2.2⟩
 
-/-- Equal boxes hash equally **relative to** the hash coherence of their CRSs (which K1
-breaks for differently spelled equal CRSs; it holds for equal spellings). -/
+/-- Equal boxes hash equally **relative to** the hash coherence of their CRSs.  Partial: the
+full statement is false only through K1 (witness `BBox.eq_hash_cex`); the hypothesis
+`optCrsHash a.crs = optCrsHash b.crs` (same `_str`, or both `None`) excludes exactly that,
+everything else that is hashed is covered. -/
 theorem BBox.eq_hash_partial (a b : BBox) (h : a.eq b = true)
     (hH : optCrsHash a.crs = optCrsHash b.crs) : a.hashKey = b.hashKey := by
   simp only [BBox.eq, Bool.and_eq_true, PyNum.eq_iff] at h
@@ -351,7 +423,8 @@ theorem GBox.eq_equiv {D : CrsObj → Prop} (hD : Coherent D) :
     rw [GBox.eq_iff hD _ _ ha hc]
     exact ⟨h.1.trans g.1, h.2.1.trans g.2.1, h.2.2.1.trans g.2.2.1, h.2.2.2.trans g.2.2.2⟩
 
-/-- relative to CRS hash coherence (K1), as for BoundingBox -/
+/-- relative to CRS hash coherence, as for BoundingBox.  Partial only through K1 (witness
+`GBox.eq_hash_cex`), excluded by the hypothesis `optCrsHash a.crs = optCrsHash b.crs`. -/
 theorem GBox.eq_hash_partial (a b : GBox) (h : a.eq b = true)
     (hH : optCrsHash a.crs = optCrsHash b.crs) : a.hashKey = b.hashKey := by
   simp only [GBox.eq, Bool.and_eq_true, numsEq_iff, beq_iff_eq] at h
@@ -419,7 +492,10 @@ theorem GCPBox.clone_token (a : GCPBox) (fresh : Nat) (c' : Option CrsObj)
   rw [GCPBox.eq_iff]
   simp [GCPBox.clone, eq_comm]
 
-/-- `neq_token` restricted to what K2 leaves true: boxes over the *same* mapping object -/
+/-- `neq_token` restricted to what K2 leaves true.  Partial: the full statement is false
+(witness `GCPBox.neq_token_cex`: content-identical but distinct mappings); the hypothesis
+`a.mapping.ident = b.mapping.ident` — both boxes sit on the same mapping object — excludes
+exactly that. -/
 theorem GCPBox.neq_token_partial (a b : GCPBox) (hm : a.mapping.ident = b.mapping.ident)
     (h : a.eq b = false) : a.token ≠ b.token := by
   intro ht
@@ -576,8 +652,9 @@ theorem GridSpec.eq_ignores_resolution_sign (c : CrsObj) :
 
 /-! ### GeoboxTiles -/
 
-/-- `neq_token` for tilings of linear GeoBoxes (over a GCPGeoBox it inherits K2) -/
-theorem GBTiles.neq_token_partial {D : CrsObj → Prop} (hD : Coherent D) (ga gb : GBox) (ta tb : AnyTiles)
+/-- `neq_token` for tilings of linear GeoBoxes: full statement, nothing excluded (the
+general form over mixed bases, which has to exclude K2, is `GBTiles.neq_token_partial`) -/
+theorem GBTiles.neq_token_linear {D : CrsObj → Prop} (hD : Coherent D) (ga gb : GBox) (ta tb : AnyTiles)
     (ha : OptD D ga.crs) (hb : OptD D gb.crs)
     (h : (GBTiles.mk (.lin ga) ta).eq (GBTiles.mk (.lin gb) tb) = false)
     (hl : ga.aff.length = gb.aff.length) :
@@ -664,5 +741,486 @@ theorem GBTiles.eq_equiv {D : CrsObj → Prop} (hD : Coherent D) :
   · intro a b c ha hb hc h g
     simp only [GBTiles.eq, Bool.and_eq_true] at h g ⊢
     exact ⟨AnyTiles.eq_equiv.2.2 _ _ _ h.1 g.1, (AnyBox.eq_equiv hD).2.2 _ _ _ ha hb hc h.2 g.2⟩
+
+
+/-! ## Witnesses for what the `_partial` theorems exclude (K1 inherited by containers, K2) -/
+
+/-- K1 through a BoundingBox: `BoundingBox(0,0,1,1,"EPSG:4326") == BoundingBox(0,0,1,1,wkt)`,
+different hash inputs.  The hypothesis `optCrsHash a.crs = optCrsHash b.crs` of
+`BBox.eq_hash_partial` is exactly what fails. -/
+theorem BBox.eq_hash_cex :
+    let ca : CrsObj := ⟨0, ⟨0, "EPSG:4326", "W0", some 4326⟩, "EPSG:4326", some 4326⟩
+    let cb : CrsObj := ⟨1, ⟨0, "W0", "W0", some 4326⟩, "W0", some 0⟩
+    let z : PyNum := ⟨.int, 0, false⟩
+    let o : PyNum := ⟨.int, 1, false⟩
+    (BBox.mk (some ca) z z o o).eq (BBox.mk (some cb) z z o o) = true ∧
+      (BBox.mk (some ca) z z o o).hashKey ≠ (BBox.mk (some cb) z z o o).hashKey := by
+  decide +kernel
+
+/-- K1 through a GeoBox -/
+theorem GBox.eq_hash_cex :
+    let ca : CrsObj := ⟨0, ⟨0, "EPSG:4326", "W0", some 4326⟩, "EPSG:4326", some 4326⟩
+    let cb : CrsObj := ⟨1, ⟨0, "W0", "W0", some 4326⟩, "W0", some 0⟩
+    (GBox.mk (some ca) 3 4 []).eq (GBox.mk (some cb) 3 4 []) = true ∧
+      (GBox.mk (some ca) 3 4 []).hashKey ≠ (GBox.mk (some cb) 3 4 []).hashKey := by
+  decide +kernel
+
+/-- K2 as a token collision: two GCPGeoBoxes over content-identical but distinct mappings
+are unequal and share their token.  `GCPBox.neq_token_partial` excludes exactly this by
+`a.mapping.ident = b.mapping.ident`. -/
+theorem GCPBox.neq_token_cex :
+    let a : GCPBox := ⟨3, 4, [], ⟨0, none, [], []⟩⟩
+    let b : GCPBox := ⟨3, 4, [], ⟨1, none, [], []⟩⟩
+    a.eq b = false ∧ a.token = b.token := by
+  decide +kernel
+
+/-- K2 inherited by GeoboxTiles over GCP bases -/
+theorem GBTiles.neq_token_gcp_cex :
+    let a : GBTiles := ⟨.gcp ⟨3, 4, [], ⟨0, none, [], []⟩⟩, .var ⟨[0, 3], [0, 4]⟩⟩
+    let b : GBTiles := ⟨.gcp ⟨3, 4, [], ⟨1, none, [], []⟩⟩, .var ⟨[0, 3], [0, 4]⟩⟩
+    a.eq b = false ∧ a.token = b.token := by
+  decide +kernel
+
+/-! ## Constructors and normalisers -/
+
+/-- `Resolution(x)` is `Resolution(x, -x)`; both fields are floats with the values `x`, `-x` -/
+theorem Resolution.default_y (x : PyNum) :
+    Resolution.mk' x none = Resolution.mk' x (some x.neg) ∧
+    (Resolution.mk' x none).x.kind = .float ∧ (Resolution.mk' x none).y.kind = .float ∧
+    (Resolution.mk' x none).x.val = x.val ∧ (Resolution.mk' x none).y.val = -x.val := by
+  refine ⟨rfl, rfl, rfl, rfl, ?_⟩
+  simp only [Resolution.mk', PyNum.toFloat, PyNum.neg]
+  cases x.kind <;> rfl
+
+/-- `res_(x)` and `Resolution(x)` are equal values with equal hashes … -/
+theorem resNorm_eq_ctor (x : PyNum) :
+    (resNorm (.num x)).eq (Resolution.mk' x none) = true ∧
+    (resNorm (.num x)).hashKey = (Resolution.mk' x none).hashKey := by
+  have hy : (resNorm (.num x)).y.val = (Resolution.mk' x none).y.val := by
+    simp only [resNorm, Resolution.mk', PyNum.toFloat, PyNum.neg]
+    cases x.kind <;> rfl
+  refine ⟨?_, ?_⟩
+  · rw [XYv.eq_iff]; exact ⟨rfl, hy⟩
+  · simp only [XYv.hashKey]
+    have hc : (resNorm (.num x)).cls = (Resolution.mk' x none).cls := rfl
+    have hx : (resNorm (.num x)).x.val = (Resolution.mk' x none).x.val := rfl
+    rw [hc, hx, hy]
+
+/-- … but not interchangeable for tokens: `res_(0)` is `(0.0, -0.0)`, `Resolution(0)` is
+`(0.0, 0.0)` (the property allows equal values with different tokens; replayed on the code
+by the constructor correspondence). -/
+theorem resNorm_zero_token_cex :
+    (resNorm (.num ⟨.int, 0, false⟩)).token ≠ (Resolution.mk' ⟨.int, 0, false⟩ none).token ∧
+    (resNorm (.num ⟨.int, 0, false⟩)).y.negz = true := by
+  decide +kernel
+
+theorem resNorm_idem (i : ResIn) : resNorm (.res (resNorm i)) = resNorm i := rfl
+
+theorem shapeNorm_idem (i : ShapeIn) (v : XYv) (_h : shapeNorm i = .ok v) :
+    shapeNorm (.shape2d v) = .ok v := rfl
+
+/-- what `shape_` builds from a sequence or an `XY` is a `Shape2d` of ints -/
+theorem shapeNorm_ints (i : ShapeIn) (v : XYv) (hi : ∀ w, i ≠ .shape2d w) (h : shapeNorm i = .ok v) :
+    v.cls = .shape2d ∧ v.x.isInt = true ∧ v.y.isInt = true := by
+  cases i with
+  | shape2d w => exact absurd rfl (hi w)
+  | xy w => simp only [shapeNorm, Except.ok.injEq] at h; subst h; exact ⟨rfl, rfl, rfl⟩
+  | seq xs =>
+    match xs, h with
+    | [a, b], h => simp only [shapeNorm, Except.ok.injEq] at h; subst h; exact ⟨rfl, rfl, rfl⟩
+
+/-- `shape_((ny, nx)) == (ny, nx)` for integers: the sequence form is `(y, x)` ordered on
+the way in (`shape_`) and on the way out (`Shape2d.__eq__(tuple)`) -/
+theorem shapeNorm_seq_eq_tuple (ny nx : PyNum) (ky kx : Int) (hy : ny.val = ky) (hx : nx.val = kx)
+    (v : XYv) (h : shapeNorm (.seq [ny, nx]) = .ok v) : Shape2d.eqTuple v [ny, nx] = .ok true := by
+  simp only [shapeNorm, Except.ok.injEq] at h
+  subst h
+  have fl : ∀ k : Int, ((if (k : Rat) < 0 then -((-(k : Rat)).floor) else (k : Rat).floor : Int) : Rat) = k := by
+    intro k
+    have h2 : (k : Rat).floor = k := Rat.floor_intCast k
+    have h1 : (-(k : Rat)).floor = -k := by
+      have e : (-(k : Rat)) = ((-k : Int) : Rat) := by simp
+      rw [e]; exact Rat.floor_intCast (-k)
+    rw [h1, h2]
+    split <;> simp
+  simp only [Shape2d.eqTuple, PyNum.isInt, PyNum.toInt, PyNum.eq, hy, hx, fl]
+  simp
+
+/-- `GeoboxTiles(box, (ty, tx))`: the regular tiling is over the box's own shape -/
+theorem GBTiles.ctor_regular_base (g : AnyBox) (ty tx : Int) (t : GBTiles)
+    (h : GBTiles.mk' g (.shape ty tx) = .ok t) :
+    t.gbox = g ∧ ∃ r, t.tiles = .reg r ∧ r.baseY = g.ny ∧ r.baseX = g.nx ∧ r.tileY = ty ∧ r.tileX = tx := by
+  simp only [GBTiles.mk', roiTiles, Tiles.mk'] at h
+  split at h
+  · simp [Except.map] at h
+  · simp only [Except.map, Except.ok.injEq] at h
+    subst h
+    exact ⟨rfl, _, rfl, rfl, rfl, rfl, rfl⟩
+
+/-- `GeoboxTiles(box, (chunks_y, chunks_x))` never looks at the box's shape: the chunks need
+not add up to it (accepted silently by the code) -/
+theorem GBTiles.ctor_chunks_ignore_shape (g g' : AnyBox) (y x : List Int) (t t' : GBTiles)
+    (h : GBTiles.mk' g (.chunks y x) = .ok t) (h' : GBTiles.mk' g' (.chunks y x) = .ok t') :
+    t.tiles = t'.tiles := by
+  simp only [GBTiles.mk', roiTiles, Except.map, Except.ok.injEq] at h h'
+  subst h; subst h'; rfl
+
+/-- F6 never reached GeoboxTiles built through the constructor: even with the Tiles token
+*as it was* (no base shape), unequal regular GeoboxTiles over linear GeoBoxes had different
+tokens, because the base shape is the box's shape and the box is in the token. -/
+theorem GBTiles.ctor_neq_token_legacy {D : CrsObj → Prop} (hD : Coherent D) (ga gb : GBox)
+    (ty tx ty' tx' : Int) (a b : GBTiles)
+    (ha : OptD D ga.crs) (hb : OptD D gb.crs) (hl : ga.aff.length = gb.aff.length)
+    (hca : GBTiles.mk' (.lin ga) (.shape ty tx) = .ok a) (hcb : GBTiles.mk' (.lin gb) (.shape ty' tx') = .ok b)
+    (h : a.eq b = false) : a.tokenLegacy ≠ b.tokenLegacy := by
+  obtain ⟨hga, ra, hta, h1, h2, h3, h4⟩ := GBTiles.ctor_regular_base _ _ _ _ hca
+  obtain ⟨hgb, rb, htb, g1, g2, g3, g4⟩ := GBTiles.ctor_regular_base _ _ _ _ hcb
+  intro ht
+  simp only [GBTiles.tokenLegacy, hga, hgb, hta, htb, AnyBox.tokenTail, AnyTiles.tokenTailLegacy,
+    Tiles.tokenLegacy, List.drop, List.cons.injEq, true_and] at ht
+  have hlen : ga.tokenTail.length = gb.tokenTail.length := by simp [GBox.tokenTail, hl]
+  obtain ⟨e1, e2⟩ := List.append_inj ht hlen
+  have hg := GBox.tokenTail_inj hD ga gb ha hb e1
+  have hshape := (GBox.eq_iff hD ga gb ha hb).1 hg
+  simp only [List.cons.injEq, Atom.int.injEq] at e2
+  have htl : ra.eq rb = true := by
+    rw [Tiles.eq_iff]
+    simp only [AnyBox.ny, AnyBox.nx] at h1 h2 g1 g2
+    exact ⟨by rw [h2, g2]; exact hshape.1, by rw [h1, g1]; exact hshape.2.1, e2.2.2.2.1, e2.2.2.1⟩
+  simp [GBTiles.eq, hga, hgb, hta, htb, AnyBox.eq, AnyTiles.eq, hg, htl] at h
+
+
+/-! ## Composition with C04 (tilings as partitions) and C14 (GridSpec tiles)
+
+A dask token stands for "the same computation".  Linking the value model with the models of
+what the values *do*: tilings with the same token select the same pixels for every index,
+grid specs with the same token produce the same tile GeoBoxes. -/
+
+/-- `Tiles.__init__`'s tile count is the count of the C04 partition model (the two models
+write `ceil(N/n)` differently: rational ceiling here, integer arithmetic there). -/
+theorem ceilDiv_eq_C04 (N n : Int) (hn : 0 < n) : ceilDiv N n = C04.ceilDiv N n := by
+  unfold ceilDiv C04.ceilDiv
+  rw [if_pos hn]
+  have hnq : (0 : Rat) < (n : Rat) := by exact_mod_cast hn
+  apply Int.le_antisymm
+  · rw [Rat.ceil_le_iff]
+    rw [div_le_iff₀ hnq]
+    have : N ≤ ((N + n - 1) / n) * n := by
+      have h2 := Int.ediv_mul_add_emod (N + n - 1) n
+      have h3 := Int.emod_lt_of_pos (N + n - 1) hn
+      have h4 := Int.emod_nonneg (N + n - 1) (ne_of_gt hn)
+      nlinarith
+    exact_mod_cast this
+  · have hlt : ((N + n - 1) / n - 1 : Int) < ((N : Rat) / (n : Rat)).ceil := by
+      rw [Rat.lt_ceil_iff]
+      rw [lt_div_iff₀ hnq]
+      have : ((N + n - 1) / n - 1) * n < N := by
+        have h2 := Int.ediv_mul_add_emod (N + n - 1) n
+        have h4 := Int.emod_nonneg (N + n - 1) (ne_of_gt hn)
+        nlinarith
+      exact_mod_cast this
+    omega
+
+
+theorem Tiles.count_eq_C04 (baseY baseX tileY tileX : Int) (t : Tiles)
+    (h : Tiles.mk' baseY baseX tileY tileX = .ok t) (hy : 0 < tileY) (hx : 0 < tileX) :
+    t.ny = C04.count baseY tileY ∧ t.nx = C04.count baseX tileX := by
+  simp only [Tiles.mk'] at h
+  split at h
+  · simp at h
+  · simp only [Except.ok.injEq] at h
+    subst h
+    exact ⟨ceilDiv_eq_C04 _ _ hy, ceilDiv_eq_C04 _ _ hx⟩
+
+/-- **token ⇒ same partition**: two regular tilings with the same dask token select the same
+pixel range for every tile index / slice, on both axes (C04's `Tiles.__getitem__`). -/
+theorem Tiles.token_sound_C04 (a b : Tiles) (ht : a.token = b.token) (idx : C17.PIdx) :
+    C04.getItem a.baseY a.tileY idx = C04.getItem b.baseY b.tileY idx ∧
+    C04.getItem a.baseX a.tileX idx = C04.getItem b.baseX b.tileX idx ∧
+    C04.chunks a.baseY a.tileY = C04.chunks b.baseY b.tileY := by
+  have h := (Tiles.eq_iff a b).1 (Tiles.tokenTail_inj a b (by simpa [Tiles.token] using ht))
+  rw [h.1, h.2.1, h.2.2.1, h.2.2.2]
+  exact ⟨rfl, rfl, rfl⟩
+
+/-- F6 in terms of what the tilings do: `Tiles((10,10),(5,5))` and `Tiles((9,9),(5,5))` shared
+the token as it was, yet tile 1 is `5:10` in one and `5:9` in the other. -/
+theorem Tiles.legacy_token_unsound_cex :
+    (Tiles.mk 10 10 5 5 2 2).tokenLegacy = (Tiles.mk 9 9 5 5 2 2).tokenLegacy ∧
+    C04.getItem 10 5 (.idx 1) ≠ C04.getItem 9 5 (.idx 1) := by
+  decide +kernel
+
+theorem cumsum32_eq_C04 : ∀ (acc : Int) (l : List Int), cumsum32 acc l = C04.cumsum32 acc l
+  | _, [] => rfl
+  | acc, c :: cs => by
+    have hw : wrap32 (acc + wrap32 c) = C04.wrap32 (acc + c) := by
+      unfold wrap32 C04.wrap32; omega
+    simp only [cumsum32, C04.cumsum32, hw]
+    rw [cumsum32_eq_C04]
+
+/-- the offsets a `VariableSizedTiles` stores are those of the C04 partition model -/
+theorem VTiles.offsets_eq_C04 (y x : List Int) :
+    (VTiles.mk' y x).offY = C04.offsets y ∧ (VTiles.mk' y x).offX = C04.offsets x := by
+  simp [VTiles.mk', C04.offsets, cumsum32_eq_C04]
+
+/-- **token ⇒ same partition** for variable tilings -/
+theorem VTiles.token_sound_C04 (y x y' x' : List Int)
+    (ht : (VTiles.mk' y x).token = (VTiles.mk' y' x').token) (idx : C17.PIdx) :
+    C04.vgetItem y idx = C04.vgetItem y' idx ∧ C04.vgetItem x idx = C04.vgetItem x' idx := by
+  have h := (VTiles.eq_iff _ _).1 (VTiles.tokenTail_inj _ _ (by simpa [VTiles.token] using ht))
+  have hy : C04.offsets y = C04.offsets y' := by
+    rw [← (VTiles.offsets_eq_C04 y x).1, ← (VTiles.offsets_eq_C04 y' x').1, h]
+  have hx : C04.offsets x = C04.offsets x' := by
+    rw [← (VTiles.offsets_eq_C04 y x).2, ← (VTiles.offsets_eq_C04 y' x').2, h]
+  simp only [C04.vgetItem, C04.vcount, hy, hx]
+  exact ⟨rfl, rfl⟩
+
+/-- a C19 GridSpec value seen as the C14 grid it defines -/
+def GridSpec.toC14 (a : GridSpec) : C14.GridSpec :=
+  ⟨a.ty, a.tx, a.resx.val, a.resy.val, a.ox.val, a.oy.val,
+   ⟨a.xbin.sz.val, a.xbin.origin.val, a.xbin.dir⟩, ⟨a.ybin.sz.val, a.ybin.origin.val, a.ybin.dir⟩⟩
+
+/-- **token ⇒ same grid**: grid specs with the same dask token are the same C14 grid, hence
+give the same tile GeoBox for every index and the same tile index for every point (any
+rounding mode `fl`). -/
+theorem GridSpec.token_sound_C14 (a b : GridSpec) (ht : a.token = b.token) :
+    a.toC14 = b.toC14 ∧
+    (∀ (fl : C14.Rnd) k, C14.GridSpec.tileGeobox fl a.toC14 k = C14.GridSpec.tileGeobox fl b.toC14 k) ∧
+    (∀ (fl : C14.Rnd) x y, C14.GridSpec.pt2idx fl a.toC14 x y = C14.GridSpec.pt2idx fl b.toC14 x y) := by
+  have h : a.toC14 = b.toC14 := by
+    simp only [GridSpec.token, Bin1D.tokenTail, List.cons_append, List.nil_append, List.cons.injEq,
+      Atom.int.injEq, Atom.num.injEq] at ht
+    simp only [GridSpec.toC14]
+    rw [ht.2.2.1, ht.2.2.2.1, ht.2.2.2.2.1, ht.2.2.2.2.2.1, ht.2.2.2.2.2.2.1, ht.2.2.2.2.2.2.2.1,
+      ht.2.2.2.2.2.2.2.2.1, ht.2.2.2.2.2.2.2.2.2.1, ht.2.2.2.2.2.2.2.2.2.2.1,
+      ht.2.2.2.2.2.2.2.2.2.2.2.1, ht.2.2.2.2.2.2.2.2.2.2.2.2.1, ht.2.2.2.2.2.2.2.2.2.2.2.2.2.1]
+  exact ⟨h, fun fl k => by rw [h], fun fl x y => by rw [h]⟩
+
+/-- `GridSpec.__init__` here and in the C14 model (exact mode, `fl = id`) build the same
+grid and reject the same arguments -/
+theorem GridSpec.mk'_eq_C14_new (crs : CrsObj) (ty tx : Int) (rx ry ox oy : PyNum) (fx fy : Bool) :
+    (GridSpec.mk' crs ty tx rx ry ox oy fx fy).map GridSpec.toC14 =
+      C14.GridSpec.new id ty tx rx.val ry.val ox.val oy.val fx fy := by
+  have hd : ∀ f : Bool, (C14.dirOf f = -1 ∨ C14.dirOf f = 1) := by
+    intro f; cases f <;> simp [C14.dirOf]
+  have habs : ∀ p : PyNum, absNum p = C14.rabs p.val := fun p => rfl
+  simp only [GridSpec.mk', C14.GridSpec.new, C14.Bin1D.new, habs, id, bind, Except.bind]
+  by_cases hy : (ty : Rat) * C14.rabs ry.val ≤ 0
+  · have : ¬ (0 < (ty : Rat) * C14.rabs ry.val) := not_lt.mpr hy
+    simp [hy, this, hd, Except.map]
+  · have hy' : 0 < (ty : Rat) * C14.rabs ry.val := not_le.mp hy
+    by_cases hx : (tx : Rat) * C14.rabs rx.val ≤ 0
+    · have : ¬ (0 < (tx : Rat) * C14.rabs rx.val) := not_lt.mpr hx
+      simp [hy, hy', hx, this, hd, Except.map]
+    · have hx' : 0 < (tx : Rat) * C14.rabs rx.val := not_le.mp hx
+      simp [hy, hy', hx, hx', Except.map, GridSpec.toC14, C14.dirOf, pure, Except.pure]
+
+/-- `==` is coarser than what a GridSpec does: the two grids of
+`GridSpec.eq_ignores_resolution_sign` are equal, yet their tile (0, 0) has a different
+affine (y resolution −8 vs 8; anchored at the top vs the bottom edge).  Not excluded by
+the property (equal values may differ in token), recorded because `==` is the only thing
+the library offers to compare grids. -/
+theorem GridSpec.eq_coarser_than_tiles_cex (c : CrsObj) :
+    let z : PyNum := ⟨.float, 0, false⟩
+    let bin : Bin1D := ⟨⟨.float, 80, false⟩, z, 1⟩
+    let a : GridSpec := ⟨c, 10, 10, ⟨.float, 8, false⟩, ⟨.float, -8, false⟩, z, z, bin, bin⟩
+    let b : GridSpec := ⟨c, 10, 10, ⟨.float, 8, false⟩, ⟨.float, 8, false⟩, z, z, bin, bin⟩
+    a.eq b = true ∧
+      C14.GridSpec.tileGeobox id a.toC14 (0, 0) ≠ C14.GridSpec.tileGeobox id b.toC14 (0, 0) := by
+  refine ⟨?_, ?_⟩
+  · simp [GridSpec.eq, Bin1D.eq, PyNum.eq, crs_eq_refl]
+  · simp only [GridSpec.toC14]
+    decide +kernel
+
+
+/-! ## GeoboxTiles over any mix of bases and tilings -/
+
+theorem AnyTiles.tokenTail_inj (ta tb : AnyTiles) (h : ta.tokenTail = tb.tokenTail) : ta.eq tb = true := by
+  cases ta with
+  | reg x =>
+    cases tb with
+    | reg y => exact Tiles.tokenTail_inj x y h
+    | var y => simp [AnyTiles.tokenTail, Tiles.tokenTail, VTiles.tokenTail] at h
+  | var x =>
+    cases tb with
+    | reg y => simp [AnyTiles.tokenTail, Tiles.tokenTail, VTiles.tokenTail] at h
+    | var y => exact VTiles.tokenTail_inj x y h
+
+theorem AnyTiles.tokenTail_len (t : AnyTiles) : t.tokenTail.length = 6 ∨ t.tokenTail.length = 2 := by
+  cases t <;> simp [AnyTiles.tokenTail, Tiles.tokenTail, VTiles.tokenTail]
+
+def AnyBox.affLen : AnyBox → Nat
+  | .lin g => g.aff.length
+  | .gcp g => g.aff.length
+
+/-- **Unequal GeoboxTiles never share a token** — over linear and GCP bases, regular and
+variable tilings, in any mix (a GeoBox-based and a GCP-based one can never collide, nor a
+regular and a variable tiling).  Partial: the full statement is false by K2
+(`GBTiles.neq_token_gcp_cex`); the hypothesis `hK2` excludes exactly that — when *both*
+bases are GCPGeoBoxes they sit on the same mapping object.  (`affLen = 6`: an
+`affine.Affine` has six coefficients.) -/
+theorem GBTiles.neq_token_partial {D : CrsObj → Prop} (hD : Coherent D) (a b : GBTiles)
+    (ha : a.gbox.OkD D) (hb : b.gbox.OkD D) (hla : a.gbox.affLen = 6) (hlb : b.gbox.affLen = 6)
+    (hK2 : ∀ x y, a.gbox = .gcp x → b.gbox = .gcp y → x.mapping.ident = y.mapping.ident)
+    (h : a.eq b = false) : a.token ≠ b.token := by
+  obtain ⟨ga, ta⟩ := a
+  obtain ⟨gb, tb⟩ := b
+  cases ga with
+  | lin x =>
+    cases gb with
+    | lin y =>
+      exact GBTiles.neq_token_linear hD x y ta tb ha hb h (by simp only [AnyBox.affLen] at hla hlb; omega)
+    | gcp y =>
+      intro ht
+      have hl := congrArg List.length ht
+      simp only [AnyBox.affLen] at hla hlb
+      simp [GBTiles.token, AnyBox.tokenTail, GBox.tokenTail, GCPBox.tokenTail, hla, hlb] at hl
+      rcases AnyTiles.tokenTail_len ta with h1 | h1 <;> rcases AnyTiles.tokenTail_len tb with h2 | h2 <;> omega
+  | gcp x =>
+    cases gb with
+    | lin y =>
+      intro ht
+      have hl := congrArg List.length ht
+      simp only [AnyBox.affLen] at hla hlb
+      simp [GBTiles.token, AnyBox.tokenTail, GBox.tokenTail, GCPBox.tokenTail, hla, hlb] at hl
+      rcases AnyTiles.tokenTail_len ta with h1 | h1 <;> rcases AnyTiles.tokenTail_len tb with h2 | h2 <;> omega
+    | gcp y =>
+      intro ht
+      simp only [AnyBox.affLen] at hla hlb
+      simp only [GBTiles.token, AnyBox.tokenTail, List.cons.injEq, true_and] at ht
+      have hlen : x.tokenTail.length = y.tokenTail.length := by simp [GCPBox.tokenTail, hla, hlb]
+      obtain ⟨h1, h2⟩ := List.append_inj ht hlen
+      have hm := hK2 x y rfl rfl
+      have hg : x.eq y = true := by
+        cases hxy : x.eq y with
+        | true => rfl
+        | false => exact absurd (by simp [GCPBox.token, h1]) (GCPBox.neq_token_partial x y hm hxy)
+      have htl := AnyTiles.tokenTail_inj ta tb h2
+      simp [GBTiles.eq, AnyBox.eq, hg, htl] at h
+
+
+/-! ## `crs == other` for a non-CRS `other` (crs.py:253-257) -/
+
+theorem alloc_vars (σ : State) (pick : Nat) (p : PInfo) : (alloc σ pick p).1.vars = σ.vars := by
+  unfold alloc; split <;> rfl
+
+theorem construct_vars (W : World) (σ : State) (spec : Spec) (pick : Nat) :
+    (construct W σ spec pick).1.vars = σ.vars := by
+  have hobj : ∀ (σ : State) id p, (makeFromObj W σ id p).1.vars = σ.vars := by
+    intro σ id p
+    unfold makeFromObj
+    simp only
+    cases cacheFind W (Key.obj id p) σ.cache with
+    | some e => rfl
+    | none =>
+      simp only
+      cases entryOf id p 0 <;> rfl
+  have htxt : ∀ key parsed e0, (makeFromText W σ key parsed e0 pick).1.vars = σ.vars := by
+    intro key parsed e0
+    unfold makeFromText
+    simp only
+    cases cacheFind W (Key.txt key) σ.cache with
+    | some e => rfl
+    | none =>
+      simp only
+      cases parsed with
+      | none => rfl
+      | some p =>
+        simp only
+        have ha := alloc_vars σ pick p
+        cases hal : alloc σ pick p with
+        | mk σ1 id =>
+          rw [hal] at ha
+          simp only at ha ⊢
+          cases entryOf id p e0 <;> exact ha
+  cases spec with
+  | int n => exact htxt _ _ _
+  | str s => exact htxt _ _ _
+  | pyproj pv =>
+    simp only [construct]
+    split
+    · rfl
+    · exact hobj _ _ _
+  | dict d =>
+    simp only [construct]
+    split
+    · rfl
+    · rename_i p _
+      have ha := alloc_vars σ pick p
+      cases hal : alloc σ pick p with
+      | mk σ1 id =>
+        rw [hal] at ha
+        simp only
+        rw [hobj]; exact ha
+  | crs w =>
+    simp only [construct]
+    split <;> rfl
+
+/-- `crs == spec` never raises: it answers `False` whenever `CRS(spec)` fails and otherwise
+what `crs == CRS(spec)` answers (`tmp` is a variable name nothing uses). -/
+theorem eqSpec_out (W : World) (σ : State) (v tmp : Nat) (spec : Spec) (pick : Nat) (c : CrsObj)
+    (hv : assoc v σ.vars = some c) (htmp : assoc tmp σ.vars = none) :
+    eqSpecOut (runFrom W σ (eqSpecOps v spec pick tmp)).2 =
+      match (construct W σ spec pick).2 with
+      | .ok c' => .bool (crsEq c c')
+      | .error _ => .bool false := by
+  have hvt : v ≠ tmp := by
+    intro e; rw [e] at hv; rw [hv] at htmp; cases htmp
+  have hfilter : ∀ l : List (Nat × CrsObj), assoc v (l.filter (fun e => e.1 != tmp)) = assoc v l := by
+    intro l
+    induction l with
+    | nil => rfl
+    | cons e t ih =>
+      obtain ⟨k, w⟩ := e
+      by_cases he : k = tmp
+      · have hb : ((k, w).1 != tmp) = false := by simp [he]
+        have hne : ¬ k = v := fun h => hvt (h.symm.trans he)
+        rw [List.filter_cons, hb]
+        simp only [assoc, if_neg hne]
+        exact ih
+      · have hb : ((k, w).1 != tmp) = true := by simp [he]
+        rw [List.filter_cons, hb]
+        simp only [assoc, if_true]
+        rw [ih]
+  have hcv := construct_vars W σ spec pick
+  simp only [eqSpecOps, runFrom, step]
+  cases hc : construct W σ spec pick with
+  | mk σ1 r =>
+    rw [hc] at hcv
+    simp only at hcv
+    cases r with
+    | error e =>
+      simp only
+      rw [hcv, hv, htmp]
+      simp [eqSpecOut]
+    | ok c' =>
+      simp only
+      have h1 : assoc v (setVar tmp c' σ1.vars) = some c := by
+        simp only [setVar, assoc]
+        rw [if_neg (fun h => hvt h.symm), hfilter, hcv, hv]
+      have h2 : assoc tmp (setVar tmp c' σ1.vars) = some c' := by simp [setVar, assoc]
+      rw [h1, h2]
+      simp [eqSpecOut]
+
+
+/-! ## Non-vacuity of the hypotheses -/
+
+/-- `Coherent` is satisfiable: any single CRS instance (with a sane string) is coherent -/
+example (x : CrsObj) (hx : x.str ≠ "None") : Coherent (fun c => c = x) :=
+  ⟨fun a b ha hb _ => by rw [ha, hb], fun a b ha hb _ _ => by rw [ha, hb]; simp,
+   fun a b ha hb _ => by rw [ha, hb], fun a ha => by rw [ha]; exact hx⟩
+
+/-- the hypotheses of `GBTiles.neq_token_partial` hold for a GeoBox-based and a GCP-based
+tiling (which the theorem then separates) -/
+example :
+    let a : GBTiles := ⟨.lin ⟨none, 3, 4, List.replicate 6 ⟨.float, 0, false⟩⟩, .var ⟨[0, 3], [0, 4]⟩⟩
+    let b : GBTiles := ⟨.gcp ⟨3, 4, List.replicate 6 ⟨.float, 0, false⟩, ⟨0, none, [], []⟩⟩, .var ⟨[0, 3], [0, 4]⟩⟩
+    a.gbox.affLen = 6 ∧ b.gbox.affLen = 6 ∧ a.eq b = false ∧
+      (∀ x y, a.gbox = .gcp x → b.gbox = .gcp y → x.mapping.ident = y.mapping.ident) := by
+  refine ⟨rfl, rfl, by decide +kernel, ?_⟩
+  intro x y hx; cases hx
+
+/-- the witness histories are histories of real operations (except the eviction one) -/
+example : ∀ op ∈ ([.pnewText 0 "A" 0, .mk 1 (.pyproj 0) 0, .mk 0 (.str "WA") 0] : List Op), op.real = true := by
+  decide
 
 end OdcGeo.C19
